@@ -40,14 +40,23 @@ structure Conn where
   panic : Bool
   info : Option ServerInfo.Info
   shut : Bool := false    -- `abort` has shut the socket down: nothing is written or read any more
+  stallAtEnd : Bool := false  -- when the script runs out the peer stays open and silent (C20)
+  stalled : Bool := false     -- the peer has gone silent
+  blocked : Nat := 0          -- reads that waited on a silent peer until their deadline (if any)
 deriving Repr
+
+/-- a connection on which nothing has been written or read yet -/
+def Conn.fresh (script : List Step) (buf : Bytes) (info : Option ServerInfo.Info) : Conn :=
+  { script := script, sending := true, sent := [], buf := buf, panic := false, info := info }
 
 /-- the peer reacts to a unit (or to the connection being opened) -/
 def Conn.deliver (c : Conn) : Conn :=
   if !c.sending then c else
   match c.script with
-  | [] => { c with sending := false }
-  | s :: rest => { c with script := rest, buf := c.buf ++ s.reply, sending := !s.close }
+  | [] => { c with sending := false, stalled := c.stallAtEnd }
+  | s :: rest =>
+    { c with script := rest, buf := c.buf ++ s.reply, sending := !s.close,
+             stalled := c.stallAtEnd && rest.isEmpty && !s.close }
 
 def Conn.write (c : Conn) (u : Bytes) : Conn :=
   if c.shut then c else ({ c with sent := u :: c.sent }).deliver
@@ -58,7 +67,9 @@ def Conn.read (c : Conn) : Conn × Res :=
   if c.shut then (c, .error .bad) else
   let (r, rest) := readResp c.buf
   let consumed := c.buf.take (c.buf.length - rest.length)
-  let c := { c with buf := rest }
+  -- a reader that needs more octets from a silent peer waits (until its deadline, if it has one)
+  let waits := c.stalled && (match parse c.buf with | .incomplete => true | _ => false)
+  let c := { c with buf := rest, blocked := if waits then c.blocked + 1 else c.blocked }
   if !utf8Valid consumed then (c, .error .bad) else
   match r with
   | .bad => (c, .error .bad)
@@ -98,7 +109,7 @@ def Conn.ehlo (c : Conn) (hello : Bytes) : Conn × Except Err Unit :=
 
 /-- `connect`: read the greeting (an error there just drops the connection), then EHLO -/
 def connect (script : List Step) (hello : Bytes) : Conn × Except Err Unit :=
-  let c : Conn := (⟨script, true, [], [], false, none, false⟩ : Conn).deliver
+  let c : Conn := (Conn.fresh script [] none).deliver
   match c.read with
   | (c, .error e) => (c, .error e)
   | (c, .ok _) => c.ehlo hello
